@@ -77,6 +77,11 @@ def history(draw):
             s['opts'] = draw(updgen.update_opts(
                 state, allow_cli=(k != 'fail-sign')))
             s['timestamp'] = draw(st.integers(0, 3)) == 0
+            if k == 'update-save':
+                # an ebuild profile on an existing tree changes where new
+                # things go, not what is there already
+                s['profile'] = draw(st.sampled_from(
+                    [None, None, None, 'ebuild', 'old-ebuild']))
             if k == 'update-save' and draw(st.integers(0, 2)) == 0:
                 # the loader that saves has verified (part of) the tree first
                 s['opts']['api'] = 'lib'
@@ -215,6 +220,8 @@ def check_save(root, before, after, view_b, view_a, step, what):
     # are existing entries as well
     fb_all = file_entries(view_b, everything=True)
     for full, lst in fa.items():
+        if step.get('profile'):
+            break       # entry types under an ebuild profile: C19's subject
         if full in fb and os.path.exists(os.path.join(root, full)):
             tags_b = {e.tag for lg, e in fb_all[full]}
             for lg, e in lst:
@@ -434,8 +441,12 @@ def run_case(desc):
                                 sub, fail_handler=lambda e: False)
                         except Exception:
                             pass
+                if s.get('profile') and not create:
+                    classes.append('profile:' + s['profile'])
                 oc = updgen.run_update(root, o, create=create,
-                                       extra_cli=extra, pre=pre)
+                                       extra_cli=extra, pre=pre,
+                                       profile=(s.get('profile')
+                                                if not create else None))
                 if oc.kind == 'return':
                     after = fsnap.snapshot(root)
                     view_a = manifest_view(root)
